@@ -457,6 +457,11 @@ type Conn struct {
 	// DeadlineErr, when set, is what every Set*Deadline call returns, without
 	// any effect (the calls are still recorded).
 	DeadlineErr error
+	// DeadlineWriteErr, when set: a transport whose read half supports
+	// deadlines and whose write half does not. SetReadDeadline works;
+	// SetDeadline arms the read side AND returns this error; SetWriteDeadline
+	// only returns it.
+	DeadlineWriteErr error
 	wroteN      int64
 }
 
@@ -718,6 +723,14 @@ func (c *Conn) setDL(kind string, t time.Time) error {
 		// a transport without deadline support (a tunnel, an io.Pipe adapter)
 		c.mu.Unlock()
 		return c.DeadlineErr
+	}
+	if c.DeadlineWriteErr != nil && kind != "SetReadDeadline" {
+		if kind == "SetDeadline" {
+			c.rdl = t
+		}
+		c.mu.Unlock()
+		signal(c.dlCh)
+		return c.DeadlineWriteErr
 	}
 	switch kind {
 	case "SetDeadline":
